@@ -118,6 +118,14 @@ def check(chk, fx, rule, name):
     except AnalysisIncomplete:
         raise
     ref = from_json(g["events"])
+    # reassigned locals are numbered by declaration order: undo a shift of the numbering
+    from .canon import best_renaming, rename_text
+    texts = lambda cs: {k[1] for k in cs} | {a for d in cs.values() for conj in d for a, _ in conj}
+    mp = best_renaming(texts(ref), texts(conds))
+    if mp:
+        conds = {(k[0], rename_text(mp, k[1])): {frozenset((rename_text(mp, a), p) for a, p in conj) for conj in d}
+                 for k, d in conds.items()}
+        nodes = {(k[0], rename_text(mp, k[1])): v for k, v in nodes.items()}
     expected = {k: (v, g["contract"]) for k, v in ref.items()}
     before = len(chk.violations)
     PS.compare(chk, rule, f, f.body, conds, nodes, expected, shorten=lambda s: s[:160])
